@@ -126,6 +126,19 @@ Section FacePad.
       let stop := W - snd (snd w) in
       Ok (isel_range d start (size d t - start - stop) t)) pwfull (Ok padded).
 
+  (* the order in which the axes are visited: the grid's axes that are needed, in grid
+     order, then any other needed name in order of first appearance *)
+  Fixpoint dedup (l : list string) : list string :=
+    match l with
+    | [] => []
+    | x :: r => x :: filter (fun y => negb (String.eqb y x)) (dedup r)
+    end.
+  Definition pad_axes_order (g : grid A) (conn : facetab) (pw : list (string * (nat * nat)))
+    : list string :=
+    let needed := flat_map (fun e => map fst (snd e)) conn ++ map fst pw in
+    let inorder := filter (fun ax => memS ax needed) (map (@ax_name A) g) in
+    inorder ++ filter (fun ax => negb (memS ax inorder)) (dedup needed).
+
   (* pad() on a grid with face connections *)
   Definition pad_faces (order : list string) (g : grid A) (facedim : string) (conn : facetab)
              (isvector : bool) (vectoraxis : string) (da : tensor A) (partner : option (tensor A))
